@@ -384,5 +384,13 @@ CHECKS["C14"].update(text="File level: file_dtype_declared_eq_actual / file_dtyp
     "scaled read returns), file_scaled_length / file_scaled_lazy_length (a full read has exactly the number of values the reader recorded = the number the file encodes). "
     + CHECKS["C14"]["text"])
 
+CHECKS["C06"].update(text=CHECKS["C06"]["text"].replace("Lazy = eager on cut files, changing object lists, interleaved and DAQmx cuts: every prefix",
+    "read_cut_general: the same for files whose object lists change between segments, with strings and the length-unknown marker, at every cut offset; "
+    "cut_lazy_eq_eager_general / cut_lazy_eq_eager_multi: on the cut file every lazy path (read_data, every window, slice, index, chunk streams) agrees with the eager "
+    "read and len(channel) is the number of values returned (fixed-width channels; for strings cut inside a chunk only the chunk-level statement "
+    "cut_string_chunk_partial). Interleaved and DAQmx cuts: every prefix"))
+CHECKS["C01"].update(text=CHECKS["C01"]["text"].replace("Not one theorem: the length-unknown marker on uncut files of several segments, typed DAQmx channels;",
+    "read_encode_multi_marker: the last segment may carry the length-unknown marker (any types, any number of chunks). Not one theorem: typed DAQmx channels;"))
+
 NOTES = ("Properties move from not_applicable to checks as their model, correspondence and theorems are built; a check is claimed at `proof` only when its "
          "headline theorems are registered in lean/obligations.json. See DESIGN.md.")
